@@ -64,3 +64,17 @@ def replay(ctx, d, meta):
                          "traces_validated_against_impl": summary["accepted"], "samples": [sc["ops"][:10]]})
     if not ctx.violations:
         log("replay: scenario %s is now accepted" % sc["id"])
+
+
+def frontend_model(ctx):
+    """E1 for the HTTP front end: spec/FrontEnd.tla (the handler around the sandbox) - every request is answered from
+    its own outcome, Invoke only after Init, the sandbox is initialised at most once; the as-found variant (no mutex
+    around initDone) must violate the last one (vacuity guard)."""
+    r = tlc.run_tlc("FrontEnd", "MC_FrontEnd.cfg", timeout=300)
+    ctx.add_tlc(r, "MC_FrontEnd.cfg")
+    if r.violation:
+        raise Inconclusive("FrontEnd.tla violates %s" % r.violation)
+    ra = tlc.run_tlc("FrontEnd", "MC_FrontEnd_asfound.cfg", timeout=300)
+    if ra.violation != "InitAtMostOnce":
+        raise Inconclusive("vacuity guard: InitAtMostOnce not violated by the front end as found (got %s)" % ra.violation)
+    log("E1 FrontEnd: %d distinct states; as-found variant violates InitAtMostOnce" % r.distinct)
